@@ -1,4 +1,6 @@
-import FxVerif.Proofs.C04Step
+import FxVerif.Proofs.C04Acct
+import FxVerif.Proofs.C04EscStep
+import FxVerif.Proofs.C04Wd
 import FxVerif.Gen.C04
 /-!
 # C04 — bridge solvency: holdings + in-flight = initial + deposits − executed withdrawals; operations move only what
@@ -39,18 +41,124 @@ theorem flows_match_code :
   refine ⟨?_, ?_, ?_, ?_, ?_, ?_, ?_, ?_, ?_, ?_, ?_, ?_, ?_, ?_, ?_, ?_, ?_, ?_⟩ <;> intros <;>
     first | rfl | (rename_i b; cases b <;> rfl)
 
+/-! ### batch life cycle: statement order of `RequestBatch` / `BuildOutgoingTxBatch`, cancel rule of
+`OutgoingTxBatchExecuted`, nonce rule of the bridge contracts — regenerated from the sources -/
+
+/-- translator tie for the batch life cycle: the statement lists the model interprets are the ones read off the Go AST
+(guards with the way they leave the function, the pool-removing `pickUnBatchedTx`, `StoreBatch`, in source order); the
+cancel loop of `OutgoingTxBatchExecuted` compares `<` and filters by token; every bridge-logic contract accepts a batch
+iff `state_lastBatchNonces[token] < nonce` and keeps that nonce per token -/
+theorem batch_rules_match_code :
+    FxVerif.Gen.C04.buildOutgoingTxBatch_steps = buildSteps ∧
+    FxVerif.Gen.C04.requestBatch_steps = requestSteps ∧
+    FxVerif.Gen.C04.executedCancelRule = cancelRule ∧
+    FxVerif.Gen.C04.solBatchNonceRules ≠ [] ∧
+    (∀ r ∈ FxVerif.Gen.C04.solBatchNonceRules, r.2 = (Cmp.lt, true)) := by
+  refine ⟨rfl, rfl, rfl, by decide, by decide⟩
+
+/-- the order conditions hold for the statement lists as they are in the source now -/
+theorem request_batch_order_safe :
+    safeOrder 0 FxVerif.Gen.C04.buildOutgoingTxBatch_steps = true ∧
+    reqSafe false FxVerif.Gen.C04.requestBatch_steps = true := by decide
+
+/-- **a batch request moves no value, whatever the statement lists are, as long as they are well ordered**: for every
+pair of statement lists of `BuildOutgoingTxBatch` / `RequestBatch` that satisfy `safeOrder` (between picking transfers
+out of the pool and storing the batch every exit is an error, and the function does not end in between) and `reqSafe`
+(a build error is propagated before any successful return), for every argument, chain state and token: a request that
+succeeds leaves the value in pool + batches + bridge calls unchanged.  (A failing request changes nothing at all:
+`failed_op_is_noop`.) -/
+theorem request_batch_conserves (bs : List BStep) (rs : List RStep) (hb : safeOrder 0 bs = true)
+    (hr : reqSafe false rs = true) (a : RArgs) (cs cs' : ChainSt) (g : Nat)
+    (h : runRequest bs a rs (cs, none) = .ok cs') : chainInFlight g cs' = chainInFlight g cs :=
+  runRequest_conserves bs a g (chainInFlight g cs) hb rs false cs none hr (fun _ => by simp) (fun _ => rfl) cs' h
+
+/-- … and the order matters: with the minimum-fee guard of `BuildOutgoingTxBatch` answering `(nil, nil)` (it sits after
+`pickUnBatchedTx`) and `RequestBatch` answering a nil batch with an empty success, a request whose minimum fee exceeds
+the picked fees succeeds and the picked transfers are gone from every store.  Either change alone is harmless (the
+other site turns it into an error): `reqSafe` holds for the unchanged `requestSteps`, `safeOrder` for `buildSteps`. -/
+theorem request_batch_unsafe_order_loses_value :
+    let bs : List BStep := [.guard .maxZero .err, .guard .notProfitable .err, .pick, .guard .pickErr .err,
+      .guard .noTx .err, .guard .belowMinFee .okNoBatch, .guard .zeroTimeout .err, .store, .guard .storeErr .err]
+    let rs : List RStep := [.guard .badSender .err, .guard .noToken .err, .guard .notOracle .err, .build,
+      .guard .buildErr .err, .guard .nilBatch .okEmpty, .respond]
+    let cs : ChainSt := { pool := [⟨1, 0, 1, 5, 1, false⟩, ⟨2, 0, 1, 7, 2, false⟩], nextTx := 3 }
+    safeOrder 0 bs = false ∧
+    (match runRequest bs ⟨true, true, ⟨1, 0, 100⟩⟩ rs (cs, none) with
+     | .ok cs' => decide (chainInFlight 1 cs = 15 ∧ chainInFlight 1 cs' = 0)
+     | .error _ => false) = true ∧
+    -- one site alone: an error, i.e. nothing is committed
+    (match runRequest bs ⟨true, true, ⟨1, 0, 100⟩⟩ requestSteps (cs, none) with | .ok _ => false | .error _ => true) = true ∧
+    (match runRequest buildSteps ⟨true, true, ⟨1, 0, 100⟩⟩ rs (cs, none) with | .ok _ => false | .error _ => true) = true := by
+  decide
+
+/-- the bridge contract's acceptance rule, with the comparison regenerated from `FxBridgeLogic.sol` -/
+def solCmp : Cmp := (FxVerif.Gen.C04.solBatchNonceRules.head?.map (·.2.1)).getD .unknown
+
+/-- `submitBatch` would still execute batch `b` of chain state `cs` -/
+def extAccepts (cs : ChainSt) (b : Batch) : Prop := extAcceptsWith solCmp cs b
+
+/-- **fxcore's pending batches are exactly the batches the external chain can still execute**: for every configuration,
+ledger and operation sequence, on every chain, a batch is stored on fxcore iff it was built there, the contract's last
+executed nonce OF ITS TOKEN is below its nonce, and its timeout has not passed.  So no batch is released (its
+transfers refundable) while the external chain can still pay it out, and no dead batch keeps transfers locked. -/
+theorem executable_batches_are_the_pending_ones (cfg : Cfg) (L : Ledger) (e0 : Nat → Nat → Nat) (ops : List Op) (c : Nat) (b : Batch) :
+    extAccepts ((runOps cfg (initE L e0) ops).chains c) b ↔ b ∈ ((runOps cfg (initE L e0) ops).chains c).batches := by
+  have hinv := runOps_inv cfg ops (initE L e0) (init_inv L e0) c
+  have hc : solCmp = .lt := rfl
+  simp only [extAccepts, extAcceptsWith, hc, Cmp.eval, decide_eq_true_eq]
+  constructor
+  · rintro ⟨h1, h2, h3⟩; exact hinv.acc_pend b h1 h2 h3
+  · intro h; exact hinv.pend_ok b h
+
+/-- **every execution the external chain can perform is accounted**: in every reachable state, if the contract still
+accepts batch `b` of chain `c`, the observed `MsgSendToExternalClaim` for it is processed (no "unknown batch" panic),
+counts exactly the batch's value as withdrawn, and moves no balance. -/
+theorem executable_execution_is_accounted (cfg : Cfg) (L : Ledger) (e0 : Nat → Nat → Nat) (ops : List Op) (c : Nat) (hc : c < nChains)
+    (b : Batch) (h : extAccepts ((runOps cfg (initE L e0) ops).chains c) b) :
+    ∃ s', step cfg (runOps cfg (initE L e0) ops) (.executed c b.g b.nonce) = .ok s' ∧
+      s'.L = (runOps cfg (initE L e0) ops).L ∧
+      (∀ g, s'.withdrawn g = (runOps cfg (initE L e0) ops).withdrawn g + poolValue g b.txs) ∧
+      (∀ g, s'.deposited g = (runOps cfg (initE L e0) ops).deposited g) := by
+  have hmem := (executable_batches_are_the_pending_ones cfg L e0 ops c b).mp h
+  have hinv := runOps_inv cfg ops (initE L e0) (init_inv L e0) c
+  generalize runOps cfg (initE L e0) ops = s at hmem hinv ⊢
+  have hf := filter_isBatch_unique _ b hmem hinv.nodup
+  refine ⟨finish s c (executedWith cancelRule (s.chains c) b.g b.nonce) []
+    (b.txs.map (fun t => (t.g, t.amount + t.fee))), ?_, rfl, ?_, fun _ => rfl⟩
+  · simp [step, Op.chain?, hc, stepCore, hf, pure, Except.pure]
+  · intro g
+    simp only [finish, setChain, bumpAll_val]
+    congr 1
+    simp only [tokensValue, poolValue, List.map_map]
+    rfl
+
+/-- the token filter of the cancel loop is needed: with `iterBatch.BatchNonce < batch.BatchNonce` alone, executing the
+batch of token 2 (nonce 2) releases the pending batch of token 1 (nonce 1) although the contract still accepts it
+(its last executed nonce of token 1 is 0) -/
+theorem executed_without_token_filter_releases_executable_batch :
+    let b1 : Batch := ⟨1, 1, [⟨1, 0, 1, 5, 1, false⟩]⟩
+    let b2 : Batch := ⟨2, 2, [⟨2, 0, 2, 7, 2, false⟩]⟩
+    let cs : ChainSt := { batches := [b2, b1], created := [b2, b1], nextBatch := 3, nextTx := 3 }
+    let cs' := executedWith ⟨.lt, false⟩ cs 2 2
+    (decide (b1 ∈ cs'.created ∧ cs'.extLast b1.g < b1.nonce ∧ (b1.g, b1.nonce) ∉ cs'.expired ∧ b1 ∉ cs'.batches ∧
+       cs'.pool = b1.txs) &&
+     -- the rule of the source keeps it pending
+     decide (b1 ∈ (executedWith cancelRule cs 2 2).batches)) = true := by decide
+
 /-! ### conservation -/
 
-/-- **conservation**: for every configuration, every initial ledger, every sequence of operations and every token
-group, in the reached state `held + inFlight = initial held + deposits − executed withdrawals`. -/
-theorem conservation (cfg : Cfg) (L : Ledger) (ops : List Op) (g : Nat) :
-    held (runOps cfg (init L) ops) g + (inFlight (runOps cfg (init L) ops) g : Int) =
-      held (init L) g + ((runOps cfg (init L) ops).deposited g : Int) - ((runOps cfg (init L) ops).withdrawn g : Int) := by
-  have h := runOps_measure cfg ops (init L) g
+/-- **conservation**: for every configuration (with or without the environment bound on deposits), every initial ledger,
+every amount circulating outside initially, every sequence of operations and every token group, in the reached state
+`held + inFlight = initial held + deposits − executed withdrawals`. -/
+theorem conservation (cfg : Cfg) (L : Ledger) (e0 : Nat → Nat → Nat) (ops : List Op) (g : Nat) :
+    held (runOps cfg (initE L e0) ops) g + (inFlight (runOps cfg (initE L e0) ops) g : Int) =
+      held (initE L e0) g + ((runOps cfg (initE L e0) ops).deposited g : Int)
+        - ((runOps cfg (initE L e0) ops).withdrawn g : Int) := by
+  have h := runOps_measure cfg ops (initE L e0) g
   simp only [FxVerif.Proofs.C04.measure, held] at h ⊢
-  have h0 : inFlight (init L) g = 0 := by simp [inFlight, init, chainInFlight, poolValue]
-  have h1 : (init L).deposited g = 0 := rfl
-  have h2 : (init L).withdrawn g = 0 := rfl
+  have h0 : inFlight (initE L e0) g = 0 := by simp [inFlight, initE, chainInFlight, poolValue]
+  have h1 : (initE L e0).deposited g = 0 := rfl
+  have h2 : (initE L e0).withdrawn g = 0 := rfl
   rw [h0, h1, h2] at h
   omega
 
@@ -113,6 +221,138 @@ theorem convert_moves_exactly (k : Kind) (g u r n : Nat) (L L' : Ledger) (g' u' 
         (if g = g' ∧ r = u' then (n : Int) else 0) - (if g = g' ∧ u = u' then (n : Int) else 0) := by
       cases k <;> simp only [convertERC20] <;> acct_done
     rw [hd, holdings]; omega
+
+/-- **operations move only what they say** (per operation, not only per flow): for every configuration, state and
+operation of the 18 kinds, if the operation succeeds then the holdings of EVERY holder — user, contract (the callee of
+a failing inbound bridge call), the precompile and evm module accounts; every account that is not a crosschain / erc20
+module account or the WFX contract — in EVERY token group (base coin, bridge denominations and ERC-20 together) change
+by exactly `stated`: the sender of a transfer pays amount + fee, a cancel or a refund gives back exactly what the stored
+record holds, a fee increase costs the added fee, a conversion moves the amount from sender to receiver, an inbound
+bridge call that fails nets to zero for everybody, building / executing / timing out a batch moves nothing — and by 0
+for every other holder and group.  (A failing operation changes nothing: `failed_op_is_noop`.) -/
+theorem op_moves_only_what_it_says (cfg : Cfg) (s s' : State) (op : Op) (g : Nat) (x : Addr) (hx : Holder x)
+    (h : step cfg s op = .ok s') : holdings s'.L g x = holdings s.L g x + stated s op x g :=
+  step_holdings cfg s s' op g x hx h
+
+/-- in particular contracts and the precompile / evm module accounts never gain or lose anything (no operation states
+a movement for them) -/
+theorem contracts_gain_nothing (cfg : Cfg) (s s' : State) (op : Op) (g m : Nat) (h : step cfg s op = .ok s') :
+    holdings s'.L g (.ext m) = holdings s.L g (.ext m) := by
+  have := op_moves_only_what_it_says cfg s s' op g (.ext m) (holder_ext m) h
+  rw [this]
+  have : stated s op (.ext m) g = 0 := by
+    cases op <;> simp only [stated, U, reduceCtorEq, and_false, ↓reduceIte, Int.neg_zero, Int.sub_zero] <;>
+      (repeat' split) <;> rfl
+  omega
+
+/-- … along whole histories: a holder's holdings are the initial holdings plus the stated amounts of the operations that
+succeeded -/
+theorem holdings_are_sum_of_stated (cfg : Cfg) (ops : List Op) (s : State) (g : Nat) (x : Addr) (hx : Holder x) :
+    holdings (runOps cfg s ops).L g x = holdings s.L g x +
+      (ops.foldl (fun (acc : State × Int) op =>
+        (stepT cfg acc.1 op, acc.2 + (match step cfg acc.1 op with | .ok _ => stated acc.1 op x g | .error _ => 0)))
+        (s, 0)).2 := by
+  suffices H : ∀ (ops : List Op) (s : State) (z : Int),
+      holdings (runOps cfg s ops).L g x + z = holdings s.L g x +
+        (ops.foldl (fun (acc : State × Int) op =>
+          (stepT cfg acc.1 op, acc.2 + (match step cfg acc.1 op with | .ok _ => stated acc.1 op x g | .error _ => 0)))
+          (s, z)).2 by
+    have := H ops s 0; omega
+  intro ops
+  induction ops with
+  | nil => intro s z; simp [runOps]
+  | cons op ops ih =>
+    intro s z
+    simp only [runOps, List.foldl_cons] at ih ⊢
+    cases hs : step cfg s op with
+    | error e =>
+      have : stepT cfg s op = s := by simp [stepT, hs]
+      rw [this]; simpa using ih s z
+    | ok s1 =>
+      have h1 : stepT cfg s op = s1 := by simp [stepT, hs]
+      rw [h1]
+      dsimp only
+      have := ih s1 (z + stated s op x g)
+      have h2 := op_moves_only_what_it_says cfg s s1 op g x hx hs
+      omega
+
+/-! ### the bridge-side escrow of locking tokens -/
+
+/-- **escrow is exact**: for every configuration with the environment bound on deposits, every initial ledger and
+external supply, every operation sequence, every chain and every LOCKING token (FX, externally-owned pair): the chain's
+module account holds, in the locked asset (FX itself / the bridge denomination), exactly what it held initially plus the
+value in flight on that chain (pool + batches + outgoing bridge calls) plus the net amount that went out
+(circulating outside now − initially).  Together with `escrow_covers_in_flight` this is the solvency clause: what is
+queued, batched or in a bridge call is really there, on the chain it was sent through. -/
+theorem escrow_exact (cfg : Cfg) (hB : cfg.envBound = true) (L : Ledger) (e0 : Nat → Nat → Nat) (ops : List Op)
+    (c g : Nat) (k : Kind) (hk : cfg.kind g = some k) (hlock : k ≠ .moduleOwned) :
+    ((runOps cfg (initE L e0) ops).L.bal (lockAsset k g c) (M c) : Int) =
+      L.bal (lockAsset k g c) (M c) + chainInFlight g ((runOps cfg (initE L e0) ops).chains c)
+        + ((runOps cfg (initE L e0) ops).chains c).ext g - e0 c g := by
+  have h := runOps_emeasure cfg k g c hk hlock hB ops (initE L e0)
+  have h0 : chainInFlight g ((initE L e0).chains c) = 0 := by simp [initE, chainInFlight, poolValue]
+  simp only [emeasure, escObs, balObs, h0] at h
+  have h1 : ((initE L e0).chains c).ext g = e0 c g := rfl
+  have h2 : (initE L e0).L = L := rfl
+  rw [h1, h2] at h
+  omega
+
+/-- if initially the module account held at least what circulated outside (on Ethereum: the FX locked at genesis), then
+in every reachable state it holds at least the value in flight on that chain plus what circulates outside: a cancel, a
+refund and a deposit of a locking token always find their funds -/
+theorem escrow_covers_in_flight (cfg : Cfg) (hB : cfg.envBound = true) (L : Ledger) (e0 : Nat → Nat → Nat)
+    (ops : List Op) (c g : Nat) (k : Kind) (hk : cfg.kind g = some k) (hlock : k ≠ .moduleOwned)
+    (h0 : e0 c g ≤ L.bal (lockAsset k g c) (M c)) :
+    chainInFlight g ((runOps cfg (initE L e0) ops).chains c) + ((runOps cfg (initE L e0) ops).chains c).ext g ≤
+      (runOps cfg (initE L e0) ops).L.bal (lockAsset k g c) (M c) := by
+  have h := escrow_exact cfg hB L e0 ops c g k hk hlock
+  omega
+
+/-- a user's cancel of an FX transfer that is still in the pool is never refused: the refund flow finds the funds in the
+module account (for every history under the environment bound) -/
+theorem fx_cancel_never_lacks_escrow (cfg : Cfg) (hB : cfg.envBound = true) (L : Ledger) (e0 : Nat → Nat → Nat)
+    (ops : List Op) (c g u : Nat) (hk : cfg.kind g = some .fx) (h0 : e0 c g ≤ L.bal (.base g) (M c))
+    (tx : PoolTx) (htx : tx ∈ ((runOps cfg (initE L e0) ops).chains c).pool) (hg : tx.g = g) :
+    ∃ L', runFlow (bridgeTokenToBaseCoin .fx g c (U u) (tx.amount + tx.fee)) (runOps cfg (initE L e0) ops).L = .ok L' := by
+  have h := escrow_covers_in_flight cfg hB L e0 ops c g .fx hk (by decide) h0
+  simp only [lockAsset] at h
+  generalize runOps cfg (initE L e0) ops = s at h htx
+  have hp : tx.amount + tx.fee ≤ poolValue g (s.chains c).pool := by
+    generalize (s.chains c).pool = pool at htx
+    induction pool with
+    | nil => cases htx
+    | cons t ts ih =>
+      simp only [List.mem_cons] at htx
+      rcases htx with rfl | htx
+      · simp [poolValue, hg]
+      · have := ih htx; simp only [poolValue, List.map_cons, List.sum_cons] at this ⊢; omega
+  have hb : ¬ s.L.bal (.base g) (M c) < tx.amount + tx.fee := by
+    simp only [chainInFlight] at h; omega
+  simp [bridgeTokenToBaseCoin, depositBridgeToken, conversionCoin, runFlow, applyPrim, hb]
+
+/-- configuration for the non-vacuity examples: 0 = FX on chain 0, 3 = externally-owned on chain 0, environment bound on -/
+def cfgE : Cfg where
+  kind := fun g => match g with | 0 => some .fx | 3 => some .externalOwned | _ => none
+  onChain := fun g c => match g, c with | 0, 0 => true | 3, 0 => true | _, _ => false
+  envBound := true
+
+/-- 100 FX locked in the module account of chain 0 (they circulate outside), user 0 holds 1000 FX -/
+def ledgerE : Ledger where
+  bal := fun a x => if a = .base 0 ∧ x = U 0 then 1000 else if a = .base 0 ∧ x = M 0 then 100 else 0
+  supply := fun a => if a = .base 0 then 1100 else 0
+  owner := fun _ => none
+
+/-- non-vacuity of `escrow_exact` / `escrow_covers_in_flight` / `fx_cancel_never_lacks_escrow` / the batch theorems: a
+send, a batch request at the minimum-fee boundary, a second send, a deposit from outside and an execution reach a state
+with a transfer in the pool, value circulating outside and the escrow equation holding with all terms non-zero; a
+deposit of more than circulates outside is rejected by the environment bound -/
+example :
+    let s := runOps cfgE (initE ledgerE (fun c g => if c = 0 ∧ g = 0 then 100 else 0))
+      [.send 0 0 0 5 1, .batch 0 0 0 1 true, .send 0 0 0 7 2, .deposit 0 0 1 30 false, .executed 0 0 1]
+    (decide (chainInFlight 0 (s.chains 0) = 9 ∧ (s.chains 0).ext 0 = 76 ∧ s.L.bal (.base 0) (M 0) = 85 ∧
+        (s.chains 0).pool.length = 1 ∧ s.withdrawn 0 = 6 ∧ s.deposited 0 = 30) &&
+      (match step cfgE s (.deposit 0 0 1 77 false) with | .error .invalid => true | _ => false) &&
+      (match step cfgE s (.deposit 0 0 1 76 false) with | .ok _ => true | _ => false)) = true := by decide
 
 /-! ### witnesses (each replayed on the real app by the scripted prefix of the harness) -/
 
@@ -199,5 +439,47 @@ theorem withdrawable_partial (k : Kind) (hk : k ≠ .moduleOwned) (g c u n : Nat
     have hba : ¬ (Asset.base g = Asset.bridge g c) := by simp
     simp [baseCoinToBridgeToken, conversionCoin, withdrawBridgeToken, runFlow, applyPrim, h1, h2, ownerOk, hown.1,
       hown.2, Ledger.setBal, Ledger.setSupply, upd, hne, hne', hab, hba, M, h3, Nat.not_lt.mpr (Nat.le_add_left n _)]
+
+/-- **`withdrawable` for every reachable state, all locking tokens** (the full-strength `Withdrawable` with the single
+restriction `k ≠ moduleOwned`; for module-owned tokens it is false, see the witnesses): from every initial ledger whose
+supplies bound its balances and whose bank coins have no ERC-20 owner (`LedgerOk`: true of every real ledger), after
+every operation sequence, a holder's `MsgSendToExternal` of any positive amount + fee up to the balance, through any
+chain the token is bridged on, succeeds.  No hypothesis on the reached state: `LedgerOk` is an invariant of all 18
+operations (`runOps_ledgerOk`). -/
+theorem withdrawable_reachable_partial (cfg : Cfg) (L : Ledger) (hL : LedgerOk L) (e0 : Nat → Nat → Nat) (ops : List Op)
+    (c g u n fee : Nat) (k : Kind) (hk : bridged cfg g c = some k) (hlock : k ≠ .moduleOwned) (hn : 0 < n)
+    (hf : 0 < fee) (hb : n + fee ≤ baseBal (runOps cfg (initE L e0) ops) g u) :
+    ∃ s', step cfg (runOps cfg (initE L e0) ops) (.send c g u n fee) = .ok s' := by
+  have hok := runOps_ledgerOk cfg ops (initE L e0) hL
+  generalize runOps cfg (initE L e0) ops = s at hb hok
+  obtain ⟨hbd, ho1, ho2⟩ := hok
+  have hs : s.L.bal (.base g) (U u) + s.L.bal (.base g) (M c) ≤ s.L.supply (.base g) := by
+    have := hbd (.base g) [U u, M c] (by simp [U, M])
+    simpa [sumL] using this
+  obtain ⟨L', hL'⟩ := withdrawable_partial k hlock g c u (n + fee) s.L ⟨ho1 g, ho2 g c⟩ hb hs
+  have hc : c < nChains := by
+    unfold bridged at hk; split at hk
+    · rename_i h; exact h.1
+    · cases hk
+  have hnz : ¬ (n = 0 ∨ fee = 0) := by omega
+  have hrun : run s (baseCoinToBridgeToken k g c (U u) (n + fee)) = .ok { s with L := L' } := by
+    simp only [run, hL']
+  simp only [step, Op.chain?, hc, ↓reduceIte, stepCore, hnz, hk, bind, Except.bind, hrun, pure, Except.pure]
+  exact ⟨_, rfl⟩
+
+/-- non-vacuity of `withdrawable_reachable_partial`: the ledger of the examples is `LedgerOk`, and after a history with
+a pending batch and a deposit user 0 still holds FX to send -/
+example : LedgerOk { ledgerE with bal := fun a x => if a = .base 0 ∧ x = U 0 then 1000 else 0, supply := fun a => if a = .base 0 then 1000 else 0 } := by
+  refine ⟨?_, fun _ => rfl, fun _ _ => rfl⟩
+  intro a l hn
+  by_cases ha : a = .base 0
+  · subst ha
+    have := sumL_single (U 0) 1000 l hn
+    simpa using this
+  · have : sumL (fun x => if a = Asset.base 0 ∧ x = U 0 then 1000 else 0) l = 0 := by
+      induction l with
+      | nil => rfl
+      | cons b bs ih => simp only [sumL]; rw [ih (List.nodup_cons.mp hn).2]; simp [ha]
+    simp [this]
 
 end FxVerif.Props.C04
